@@ -14,11 +14,14 @@ import (
 	"seehuhn.de/go/geom/matrix"
 	"seehuhn.de/go/postscript/type1"
 
+	"golang.org/x/text/language"
+	"seehuhn.de/go/postscript/funit"
 	"seehuhn.de/go/sfnt"
 	"seehuhn.de/go/sfnt/cff"
 	"seehuhn.de/go/sfnt/cmap"
 	"seehuhn.de/go/sfnt/glyf"
 	"seehuhn.de/go/sfnt/glyph"
+	"seehuhn.de/go/sfnt/opentype/coverage"
 	"seehuhn.de/go/sfnt/opentype/gtab"
 	"verif/harness/fontcmp"
 	genfont "verif/harness/gen/font"
@@ -178,6 +181,24 @@ func closure(f *sfnt.Font, list []glyph.ID) (required, allowed map[glyph.ID]bool
 	return run(false), run(true)
 }
 
+// gsubReach returns the glyphs outside list that substitution rules can
+// produce from sequences of listed glyphs (the GSUB part of the closure):
+// these can occur in shaped text of the subset, component-only glyphs cannot.
+func gsubReach(f *sfnt.Font, list []glyph.ID) map[glyph.ID]bool {
+	if f.Gsub == nil {
+		return nil
+	}
+	g := *f
+	if o, ok := f.Outlines.(*glyf.Outlines); ok {
+		// same font without composite references
+		o2 := *o
+		o2.Glyphs = make(glyf.Glyphs, len(o.Glyphs))
+		g.Outlines = &o2
+	}
+	req, _ := closure(&g, list)
+	return req
+}
+
 func allLookups(info *gtab.Info) []gtab.LookupIndex {
 	var all []gtab.LookupIndex
 	for i := range info.LookupList {
@@ -238,6 +259,88 @@ func subtableMap(st cmap.Subtable) map[rune]glyph.ID {
 	return m
 }
 
+// installChain replaces the font's layout tables by a chain of dependent
+// substitutions a -> b, "b c" -> d, "d c" -> e (in one or several lookups, in
+// any lookup order) plus kerning pairs that involve the glyphs only the chain
+// produces, and returns a glyph list that requests a and c but usually not
+// b, d, e: the subsetter then has to follow the chain to its end, and the
+// pairs of the appended glyphs have to survive.
+func installChain(t *rapid.T, f *sfnt.Font, list []glyph.ID) []glyph.ID {
+	n := f.NumGlyphs()
+	ids := make([]int, 0, n-1)
+	for i := 1; i < n; i++ {
+		ids = append(ids, i)
+	}
+	p := rapid.Permutation(ids).Draw(t, "chainGlyphs")
+	a, b, c, d, e, x := glyph.ID(p[0]), glyph.ID(p[1]), glyph.ID(p[2]), glyph.ID(p[3]), glyph.ID(p[4]), glyph.ID(p[5])
+	single := &gtab.LookupTable{Meta: &gtab.LookupMetaInfo{LookupType: 1},
+		Subtables: []gtab.Subtable{&gtab.Gsub1_1{Cov: coverage.Set{a: true}, Delta: b - a}}}
+	lig := func(first, out glyph.ID) *gtab.LookupTable {
+		return &gtab.LookupTable{Meta: &gtab.LookupMetaInfo{LookupType: 4},
+			Subtables: []gtab.Subtable{&gtab.Gsub4_1{Cov: coverage.Table{first: 0}, Repl: [][]gtab.Ligature{{{In: []glyph.ID{c}, Out: out}}}}}}
+	}
+	var ll gtab.LookupList
+	if rapid.Bool().Draw(t, "chainOneSubtable") {
+		cov := coverage.Table{b: 0, d: 1}
+		repl := [][]gtab.Ligature{{{In: []glyph.ID{c}, Out: d}}, {{In: []glyph.ID{c}, Out: e}}}
+		if d < b {
+			cov = coverage.Table{d: 0, b: 1}
+			repl[0], repl[1] = repl[1], repl[0]
+		}
+		ll = gtab.LookupList{single, {Meta: &gtab.LookupMetaInfo{LookupType: 4}, Subtables: []gtab.Subtable{&gtab.Gsub4_1{Cov: cov, Repl: repl}}}}
+	} else {
+		ll = gtab.LookupList{single, lig(b, d), lig(d, e)}
+	}
+	order := rapid.Permutation(ll).Draw(t, "chainLookupOrder")
+	all := make([]gtab.LookupIndex, len(order))
+	for i := range all {
+		all[i] = gtab.LookupIndex(i)
+	}
+	tag := language.MustParse("und-Latn")
+	f.Gsub = &gtab.Info{
+		ScriptList:  gtab.ScriptListInfo{tag: {Required: 0xFFFF, Optional: []gtab.FeatureIndex{0}}},
+		FeatureList: gtab.FeatureListInfo{{Tag: "liga", Lookups: all}},
+		LookupList:  order,
+	}
+	pairs := gtab.Gpos2_1{}
+	for _, pr := range [][2]glyph.ID{{x, d}, {d, x}, {e, x}, {x, e}, {b, c}, {a, c}, {e, e}} {
+		if rapid.IntRange(0, 3).Draw(t, "chainPair") > 0 {
+			pairs[glyph.Pair{Left: pr[0], Right: pr[1]}] = &gtab.PairAdjust{First: &gtab.GposValueRecord{XAdvance: funit.Int16(rapid.IntRange(-200, 200).Draw(t, "chainKern"))}}
+		}
+	}
+	if len(pairs) > 0 {
+		f.Gpos = &gtab.Info{
+			ScriptList:  gtab.ScriptListInfo{tag: {Required: 0xFFFF, Optional: []gtab.FeatureIndex{0}}},
+			FeatureList: gtab.FeatureListInfo{{Tag: "kern", Lookups: []gtab.LookupIndex{0}}},
+			LookupList:  gtab.LookupList{{Meta: &gtab.LookupMetaInfo{LookupType: 2}, Subtables: []gtab.Subtable{pairs}}},
+		}
+	}
+	f.Gdef = nil
+	// the list: a, c and x requested; b, d, e only sometimes
+	drop := map[glyph.ID]bool{}
+	for _, g := range []glyph.ID{b, d, e} {
+		if rapid.IntRange(0, 3).Draw(t, "chainKeepProduced") > 0 {
+			drop[g] = true
+		}
+	}
+	have := map[glyph.ID]bool{}
+	var res []glyph.ID
+	for _, g := range list {
+		if !drop[g] {
+			res = append(res, g)
+			have[g] = true
+		}
+	}
+	for _, g := range []glyph.ID{a, c, x} {
+		if !have[g] {
+			pos := rapid.IntRange(1, len(res)).Draw(t, "chainInsertAt")
+			res = append(res[:pos], append([]glyph.ID{g}, res[pos:]...)...)
+			have[g] = true
+		}
+	}
+	return res
+}
+
 func TestC10Subset(t *testing.T) {
 	o := genfont.Opts{MaxGlyphs: 16, Layout: genfont.LayoutSubset}
 	if stats.Thorough() {
@@ -248,6 +351,11 @@ func TestC10Subset(t *testing.T) {
 		f := c.Font
 		n := f.NumGlyphs()
 		list := genList(t, n)
+		chained := false
+		if n >= 7 && rapid.IntRange(0, 3).Draw(t, "chainProfile") == 0 {
+			list = installChain(t, f, list)
+			chained = true
+		}
 		ctx := func() string { return fmt.Sprintf("list=%v\n%s", list, c) }
 
 		var before bytes.Buffer
@@ -360,8 +468,54 @@ func TestC10Subset(t *testing.T) {
 			}
 		}
 
-		// (f) layout rules among retained glyphs keep their meaning
+		// (f) layout rules among retained glyphs keep their meaning.  Retained
+		// = requested glyphs plus the appended ones; an appended glyph is
+		// identified by its content when that is unambiguous.
+		newIdxAll := map[glyph.ID]int{}
+		for g, i := range newIdx {
+			newIdxAll[g] = i
+		}
+		var retained []glyph.ID
+		retained = append(retained, list...)
+		{
+			bySig := map[string][]int{}
+			for j := len(list); j < s.NumGlyphs(); j++ {
+				k := sig(s, glyph.ID(j))
+				bySig[k] = append(bySig[k], j)
+			}
+			oldBySig := map[string][]glyph.ID{}
+			for g := range extra {
+				k := sig(f, g)
+				oldBySig[k] = append(oldBySig[k], g)
+			}
+			// only glyphs that shaping can produce from requested glyphs:
+			// rules that start from a component-only glyph are not demanded
+			// (see the closure oracle)
+			var olds []glyph.ID
+			for g := range gsubReach(f, list) {
+				olds = append(olds, g)
+			}
+			sort.Slice(olds, func(i, j int) bool { return olds[i] < olds[j] })
+			for _, g := range olds {
+				k := sig(f, g)
+				if len(bySig[k]) == 1 && len(oldBySig[k]) == 1 {
+					newIdxAll[g] = bySig[k][0]
+					retained = append(retained, g)
+				}
+			}
+		}
 		seqs := [][]glyph.ID{}
+		if len(retained) > len(list) {
+			// sequences that involve appended glyphs
+			for k := 0; k < 30; k++ {
+				l := rapid.IntRange(1, 4).Draw(t, "seqLenR")
+				sq := make([]glyph.ID, l)
+				for i := range sq {
+					sq[i] = rapid.SampledFrom(retained).Draw(t, "seqGidR")
+				}
+				seqs = append(seqs, sq)
+			}
+		}
 		if len(list) <= 5 {
 			var rec func(prefix []glyph.ID)
 			rec = func(prefix []glyph.ID) {
@@ -410,6 +564,7 @@ func TestC10Subset(t *testing.T) {
 					sets = append(sets, [2][]gtab.LookupIndex{pair.a.FeatureList[i].Lookups, pair.b.FeatureList[i].Lookups})
 				}
 			}
+			sets = append(sets, [2][]gtab.LookupIndex{allLookups(pair.a), allLookups(pair.b)})
 			for _, ls := range sets {
 				for _, sq := range seqs {
 					want, pn := shape(f, pair.a, ls[0], sq)
@@ -418,7 +573,7 @@ func TestC10Subset(t *testing.T) {
 					}
 					mapped := make([]glyph.ID, len(sq))
 					for i, g := range sq {
-						mapped[i] = glyph.ID(newIdx[g])
+						mapped[i] = glyph.ID(newIdxAll[g])
 					}
 					got, pn := shape(s, pair.b, ls[1], mapped)
 					if pn != nil {
@@ -426,7 +581,7 @@ func TestC10Subset(t *testing.T) {
 					}
 					w, g := render(f, want), render(s, got)
 					if w != g {
-						t.Fatalf("[layout] %s lookups %v/%v: sequence %v (new %v) shapes differently in the subset\n  original: %s\n  subset:   %s\n%s", pair.name, ls[0], ls[1], sq, mapped, w, g, ctx())
+						t.Fatalf("[layout] %s lookups %v/%v: sequence %v (new %v) shapes differently in the subset\n  original: %s\n  subset:   %s\n  original table: %s\n  subset table:   %s\n  retained=%v required=%v allowed=%v subset glyphs=%d\n%s", pair.name, ls[0], ls[1], sq, mapped, w, g, fontcmp.Dump(pair.a.LookupList), fontcmp.Dump(pair.b.LookupList), retained, required, extra, s.NumGlyphs(), ctx())
 					}
 					if len(want) != len(sq) {
 						fired = true
@@ -493,6 +648,12 @@ func TestC10Subset(t *testing.T) {
 			}
 		}
 		nt := !prefix && (hasComp || fired)
+		if chained {
+			labels = append(labels, "chain-profile")
+		}
+		if len(retained) > len(list) {
+			labels = append(labels, "layout-compared-on-appended-glyphs")
+		}
 		stats.CaseIn("subset", stats.Hash(before.Bytes(), fmt.Sprint(list)), nt, func() string { return ctx() }, labels...)
 	})
 }
